@@ -13,6 +13,8 @@ import BlugeProofs.C18.StemNorm
 import BlugeProofs.C18.StemBytes
 import BlugeProofs.C18.StemLatin2
 import Bluge.C18.StemDrv
+import BlugeGen.C18I
+import BlugeProofs.C18.Indic
 /-! # C18 — analysis is total, deterministic and offset-correct on any bytes
 
 Property theorems only (lemmas: `BlugeProofs/C18/*.lean`; model: `Bluge/Analysis.lean`).
@@ -34,11 +36,15 @@ What is proved, over ALL byte strings, token streams and parameter values in the
   slice expression is out of range, no `make` gets a negative length and every loop ends within its fuel, for
   every input Go can hold (and, for the helpers, inside their stated domain); `…_filter_no_crash` lifts that to the
   token filters, for every term. `stemmers_translated_all_proved` ties the list to the generator's table.
+* the Indic normaliser (analysis/lang/in; map / struct-pointer / bitset code outside the translated subset) is a
+  HAND transcription (`Bluge.C18.Indic`) over the tables extracted from the source: `indic_normalize_no_crash`,
+  `indic_filter_no_crash` for every rune slice and every script lookup; the transcription is tied by the `decide`
+  obligations `indic_mask_is_a_total_bitset`, `indic_index_sites_reviewed`, `indic_source_reviewed`,
+  `indic_tables_wellformed` and by the `stem in_normalize` replay.
 
 What is not proved (exercised by the correspondence stream only): the term REWRITING of the stemmers (which
-stem they produce), no-panic of the dependency stemmers (snowballstem, go-porterstemmer), of the Indic
-normaliser (bitset / map code outside the translated subset), of lower-casing / unicode normalisation and of the
-dependency tokenizers (blevesearch/segment, regexp) — all term-only by the extracted table, so
+stem they produce), no-panic of the dependency stemmers (snowballstem, go-porterstemmer), of lower-casing /
+unicode normalisation and of the dependency tokenizers (blevesearch/segment, regexp) — all term-only by the extracted table, so
 `term_only_filters_safe` covers their offsets, nothing more. -/
 namespace Bluge.C18
 open Bluge.Analysis
@@ -531,5 +537,63 @@ theorem stemmers_translated_all_proved :
   decide
 
 end Stemmers
+
+/-! ## the Indic normaliser (analysis/lang/in): hand transcription over extracted tables -/
+section IndicNormaliser
+open Bluge.C18.Indic
+
+/-- `normalize` (scripts.go) returns for EVERY rune slice and EVERY answer `lookupScript` could give: no index or
+slice out of range, the loop ends, and the result is not longer than the input -/
+theorem indic_normalize_no_crash (look : Indic.Rune → Option Nat) (input : List Indic.Rune) :
+    ∃ out, Indic.normalize look input = .ok out ∧ out.length ≤ input.length :=
+  normalizeWith_ok look scriptTable decompRows decompRows_five input
+
+/-- `IndicNormalizeFilter.Filter` on every term -/
+theorem indic_filter_no_crash (look : Indic.Rune → Option Nat) (term : List (BitVec 8)) (h : term.length < 2 ^ 61) :
+    C18S.in_normalizeFilter look term ≠ .crash := by
+  refine viaRunes_no_crash _ term h (fun rs _ => ?_)
+  obtain ⟨out, ho, hl⟩ := indic_normalize_no_crash look rs
+  rw [ho]; exact hl
+
+/-- the per-script decomposition mask is a `*bitset.BitSet`, created by `bitset.New`, written by `Set(uint(ch))` in
+`init` and read ONLY by `Test(uint(ch))` in `normalize`: `Test` is total (false beyond the set's length), which is
+what `Indic.maskTest` transcribes. `ch = r - base` is far outside 0…0x7f for the code points of a script table
+outside its main block (U+A8E0.., U+11B00.., U+11FC0..): an array or slice index in place of `Test` panics there. -/
+theorem indic_mask_is_a_total_bitset :
+    BlugeGen.C18I.maskField = "*bitset.BitSet" ∧
+    BlugeGen.C18I.maskUses = [("init", "scriptData.decompMask = bitset.New(0x7d)"),
+                              ("init", "scriptData.decompMask.Set(uint(ch))"),
+                              ("normalize", "scriptData.decompMask.Test(uint(ch))")] := by decide
+
+/-- every index / slice expression of the package is one the transcription guards (`idx`, `setAt`, the final `take`)
+or a map lookup (`scripts[..]`) -/
+theorem indic_index_sites_reviewed :
+    BlugeGen.C18I.indexSites =
+      [("compose", "input", "pos + 1"), ("compose", "input", "pos + 1"), ("compose", "input", "pos + 2"),
+       ("compose", "input", "pos + 2"), ("compose", "input", "pos + 2"), ("compose", "decomposition", "0"),
+       ("compose", "decomposition", "4"), ("compose", "decomposition", "1"), ("compose", "decomposition", "2"),
+       ("compose", "decomposition", "2"), ("compose", "input", "pos"), ("compose", "decomposition", "3"),
+       ("compose", "decomposition", "2"), ("flag", "scripts", "ub"), ("init", "decomposition", "0"),
+       ("init", "decomposition", "4"), ("normalize", "input", "i"), ("normalize", "scripts", "script"),
+       ("normalize", "input", "0:inputLen")] := by decide
+
+/-- the transcription is of exactly this source text (comment-free, whitespace-normalised); an edit of any of
+these functions asks for a re-review of `Bluge.C18.Indic` -/
+theorem indic_source_reviewed :
+    BlugeGen.C18I.digests =
+      [("IndicNormalizeFilter.Filter", "5e186a374f3af74c"), ("NormalizeFilter", "16aad4fbc70e00ca"),
+       ("compose", "7a92385f757ef435"), ("flag", "7a39b504adda2ac2"), ("init", "da2dbda3d305a3da"),
+       ("lookupScript", "8c908af4324faf84"), ("normalize", "ccb3f76395953c75")] := by decide
+
+/-- the extracted tables: nine scripts with distinct one-bit flags and 0x80-aligned bases, decomposition rows of
+five entries whose first entry is a bit the `bitset.New(0x7d)` mask holds without growing -/
+theorem indic_tables_wellformed :
+    BlugeGen.C18I.scripts = [("unicode.Devanagari", 1, 2304), ("unicode.Bengali", 2, 2432), ("unicode.Gurmukhi", 4, 2560),
+      ("unicode.Gujarati", 8, 2688), ("unicode.Oriya", 16, 2816), ("unicode.Tamil", 32, 2944), ("unicode.Telugu", 64, 3072),
+      ("unicode.Kannada", 128, 3200), ("unicode.Malayalam", 256, 3328)] ∧
+    BlugeGen.C18I.decompositions.all (fun d => d.length == 5 && decide (0 ≤ d.headD (-1) ∧ d.headD (-1) < 0x7d)) = true ∧
+    BlugeGen.C18I.decompositions.length = 72 := by decide
+
+end IndicNormaliser
 
 end Bluge.C18
